@@ -242,7 +242,8 @@ type Server struct {
 
 	nextProtos map[string]ServeHandler
 
-	concurrencyCh chan struct{}
+	concurrencyCh     chan struct{}
+	concurrencyChOnce sync.Once
 
 	idleConns map[net.Conn]*atomic.Int64
 	done      chan struct{}
@@ -498,7 +499,7 @@ func TimeoutWithCodeHandler(h RequestHandler, timeout time.Duration, msg string,
 	}
 
 	return func(ctx *RequestCtx) {
-		concurrencyCh := ctx.s.concurrencyCh
+		concurrencyCh := ctx.s.timeoutConcurrencyCh()
 		select {
 		case concurrencyCh <- struct{}{}:
 		default:
@@ -1989,10 +1990,8 @@ func (s *Server) Serve(ln net.Listener) error {
 	if s.done == nil {
 		s.done = make(chan struct{})
 	}
-	if s.concurrencyCh == nil {
-		s.concurrencyCh = make(chan struct{}, maxWorkersCount)
-	}
 	s.mu.Unlock()
+	s.timeoutConcurrencyCh()
 
 	wp := &workerPool{
 		WorkerFunc:            s.serveConn,
@@ -2245,6 +2244,18 @@ func (s *Server) ServeConn(c net.Conn) error {
 		s.setState(c, StateHijacked)
 	}
 	return err
+}
+
+// timeoutConcurrencyCh returns the semaphore that bounds the number of
+// concurrently running handlers wrapped by TimeoutHandler. It is created on
+// first use, so that it also exists for servers that only use ServeConn.
+func (s *Server) timeoutConcurrencyCh() chan struct{} {
+	s.concurrencyChOnce.Do(func() {
+		if s.concurrencyCh == nil {
+			s.concurrencyCh = make(chan struct{}, s.getConcurrency())
+		}
+	})
+	return s.concurrencyCh
 }
 
 func (s *Server) tryAcquireConcurrency() bool {
